@@ -14,9 +14,14 @@ import (
 	"go.uber.org/zap"
 )
 
+// tokensPerByte is the unit of TokenBucket.Tokens: the eBPF program accounts
+// tokens in 1e-9 bytes (TOKENS_PER_BYTE in bpf/qos_ratelimit.c) so that
+// elapsed nanoseconds * bytes per second refills the bucket without rounding.
+const tokensPerByte = 1_000_000_000
+
 // TokenBucket mirrors the eBPF struct
 type TokenBucket struct {
-	Tokens     uint64
+	Tokens     uint64 // Current tokens in 1e-9 bytes (see tokensPerByte)
 	LastUpdate uint64
 	RateBPS    uint64 // Rate in bits per second
 	BurstBytes uint32
@@ -193,8 +198,8 @@ func (m *Manager) SetSubscriberQoS(qos *SubscriberQoS) error {
 
 	// Create egress (download) token bucket
 	egressTB := &TokenBucket{
-		Tokens:     uint64(burstBytes), // Start with full bucket
-		LastUpdate: 0,                  // Will be set on first packet
+		Tokens:     uint64(burstBytes) * tokensPerByte, // Start with full bucket
+		LastUpdate: 0,                                  // Will be set on first packet
 		RateBPS:    qos.DownloadBPS,
 		BurstBytes: burstBytes,
 		Priority:   qos.Priority,
@@ -215,7 +220,7 @@ func (m *Manager) SetSubscriberQoS(qos *SubscriberQoS) error {
 	}
 
 	ingressTB := &TokenBucket{
-		Tokens:     uint64(uploadBurst),
+		Tokens:     uint64(uploadBurst) * tokensPerByte,
 		LastUpdate: 0,
 		RateBPS:    qos.UploadBPS,
 		BurstBytes: uploadBurst,
